@@ -37,7 +37,7 @@ func cmdReplay(args []string) {
 	}
 	fmt.Println("re-running:", cmdline)
 	c := exec.Command("sh", "-c", cmdline)
-	c.Env = append(os.Environ(), "GOFLAGS=-mod=mod", "GOPROXY=off", "GOSUMDB=off", "GOTOOLCHAIN=local")
+	c.Env = append(os.Environ(), "GOFLAGS=-mod=mod", "GOPROXY=off", "GOSUMDB=off", "GOTOOLCHAIN=local", "PATH=/opt/veriftools/go1.26.8/bin:"+os.Getenv("PATH"))
 	out, _ := c.CombinedOutput()
 	fmt.Print(string(out))
 	os.Exit(1)
